@@ -223,3 +223,13 @@ def session(rng, s, ctx, cfg, stations, n_ops=30, tos_mix=(0, 0, 0, 1), noise=0.
             s.frame(ctx, discover(M, tos=rng.choice(tos_mix), gen=gen, seq=seq, stations=[]), fillb)
         else:
             s.frame(ctx, generic(9, 0, M, M, own, own, seq=seq), fillb)   # Charge
+
+# ------------------------------------------------------------------ projections: what a property observes, no more
+def send_opcodes(blk):
+    """opcodes of the frames handed to the port during an operation, in order"""
+    return tuple((o[17] if len(o) >= 18 else -1) for _, _, o in blk.sends())
+def frame_hdr(blk):
+    t = blk.op.split()
+    if len(t) < 4: return None
+    fr = V.unhex(t[3])
+    return dec(fr + bytes(max(0, 36 - len(fr))))
